@@ -425,6 +425,33 @@ func runC13(c *ctx) {
 			}
 		}
 	}
+	// two items of ONE format side by side whose length fields have the same width and the same leading byte but differ
+	// behind it (256|257, 300|400, 65536|65537, 70000|70001 ..): each is decoded with its own length
+	for _, k := range []ref.Kind{ref.B, ref.BOOLEAN, ref.A, ref.I1, ref.I2, ref.I4, ref.I8, ref.U1, ref.U2, ref.U4, ref.U8, ref.F4, ref.F8, ref.L} {
+		for _, pair := range [][]int{{256, 257}, {257, 256}, {300, 400}, {256, 511, 256}, {264, 256 + 248}, {65536, 65537}, {70000, 70001}, {65536, 131064, 65544}, {1000, 1001, 1002, 1003}} {
+			if k == ref.L && pair[0] > 300 {
+				continue
+			}
+			var args []interface{}
+			for _, bytesN := range pair {
+				n := bytesN / k.Width()
+				if k == ref.L {
+					n = bytesN
+				}
+				args = append(args, c13Build(k, n))
+			}
+			var b []byte
+			o := real.Try(func() {
+				b = ast.NewHSMSDataMessage("", 1, 1, 0, "H<->E", ast.NewListNode(args...), 7, []byte{0, 0, 0, 0}).ToBytes()
+			})
+			c.NoteBulk(1, 1)
+			c.Class("same-format-neighbours-with-related-lengths")
+			dec, ok, _ := hsmsParse(b)
+			if o.Panicked || len(b) == 0 || !ok || !bytes.Equal(dec.ToBytes(), b) {
+				c.Violation("C13/decoder/same-format-neighbours-with-related-lengths", fmt.Sprintf("a list of %s items with payload sizes %v does not decode back (built: %s, %d bytes, ok=%v)", k, pair, o, len(b), ok), c13Case{"mixed", k.String(), pair[0]})
+			}
+		}
+	}
 	// bytes returned for one item stay what they were while other items are encoded
 	{
 		first := c13Build(ref.L, 0).ToBytes()
@@ -454,7 +481,7 @@ func runC13(c *ctx) {
 			c.Violation("C13/fill/encoding", fmt.Sprintf("filled ASCII of %d characters encodes to %d bytes", n, len(filled.ToBytes())), c13Case{"fill", "A", n})
 		}
 	}
-	c.Required = []string{"mixed-length-fields", "slice-argument-forms", "shapes-encoded-twice-in-a-long-run", "items-at-the-limit-inside-a-list", "list-at-the-limit-by-expansion", "list-limit-with-variable-last", "earlier-encoding-re-read", "ascii-fill-at-the-limit", "item/beyond-limit", "item/lenbytes=3/L", "item/lenbytes=3/A", "item/lenbytes=3/F8", "item/lenbytes=2/U2", "header-sweep-points"}
+	c.Required = []string{"same-format-neighbours-with-related-lengths", "mixed-length-fields", "slice-argument-forms", "shapes-encoded-twice-in-a-long-run", "items-at-the-limit-inside-a-list", "list-at-the-limit-by-expansion", "list-limit-with-variable-last", "earlier-encoding-re-read", "ascii-fill-at-the-limit", "item/beyond-limit", "item/lenbytes=3/L", "item/lenbytes=3/A", "item/lenbytes=3/F8", "item/lenbytes=2/U2", "header-sweep-points"}
 }
 
 func replayC13(c *ctx, raw json.RawMessage) {
